@@ -513,9 +513,11 @@ fn table_cases(thorough: bool) -> Vec<TableCase> {
             }
             for (fname, prelude, expr, value_const) in forms {
                 for (is_decl, konst) in [(true, false), (true, true), (false, false)] {
-                    if konst && (fname == "variable" || fname.starts_with("arith") || fname == "measurement" || fname == "call") {
-                        continue;
-                    }
+                    // a const target initialised from a non-constant value: whether that is allowed at
+                    // all is not this property's business, so a diagnostic is never "spurious" here;
+                    // but the value-type clause and the always-diagnosed classes (narrowing of a
+                    // non-constant value, downward kinds) apply to const targets as well
+                    let nonconst_into_const = konst && (fname == "variable" || fname.starts_with("arith") || fname == "measurement" || fname == "call");
                     let stmt = if is_decl {
                         format!("{}{ts} x = {expr};", if konst { "const " } else { "" })
                     } else {
@@ -527,7 +529,7 @@ fn table_cases(thorough: bool) -> Vec<TableCase> {
                     let must = must_diagnose(t, v, &fname, value_const);
                     // a numeric literal has no written width: "same type" is only meaningful for the
                     // literal classes whose type is exact (bool, duration, bit string)
-                    let same = t == v && !(fname.contains("literal") && matches!(v.name, "int" | "float" | "complex"));
+                    let same = t == v && !(fname.contains("literal") && matches!(v.name, "int" | "float" | "complex")) && !nonconst_into_const;
                     let wc = match (t.w, v.w) {
                         (None, None) => "none<-none",
                         (Some(_), None) => "w<-none",
@@ -824,6 +826,11 @@ fn shadow_forms(wsp: &str, w: u128) -> Vec<DeclCase> {
     push("for-var:body-const", format!("{g}for int[n] v in [0:1] {{ const int n = {other}; }}"), Type::Int(w32, IsConst::False));
     push("inner-block", format!("const int n = {other};\nif (true) {{ const int n = {wsp}; float[n] v; }}"), Type::Float(w32, IsConst::False));
     push("inner-def", format!("const int n = {other};\ndef f() {{ const int n = {wsp}; angle[n] v; }}"), Type::Angle(w32, IsConst::False));
+    // the shadowing binding sits in an intermediate scope, the designator one or two blocks deeper
+    push("two-levels:def-then-if", format!("const int n = {other};\ndef f() {{ const int n = {wsp}; if (true) {{ bit[n] v; }} }}"), Type::BitArray(ArrayDims::D1(w as usize), IsConst::False));
+    push("two-levels:if-then-while", format!("const int n = {other};\nif (true) {{ const int n = {wsp}; while (false) {{ int[n] v; }} }}"), Type::Int(w32, IsConst::False));
+    push("two-levels:for-then-if-then-if", format!("const int n = {other};\nfor int i in [0:1] {{ const int n = {wsp}; if (true) {{ if (true) {{ uint[n] v; }} }} }}"), Type::UInt(w32, IsConst::False));
+    push("two-levels:gate-then-if", format!("const int n = {other};\ndef g() {{ if (true) {{ const int n = {wsp}; switch (1) {{ case 1 {{ float[n] v; }} }} }} }}"), Type::Float(w32, IsConst::False));
     push("inner-while", format!("const int n = {other};\nwhile (false) {{ const int n = {wsp}; int[n] v; }}"), Type::Int(w32, IsConst::False));
     v
 }
